@@ -149,6 +149,14 @@ PROPS = {
         units=[
         unit("c14", "registry/consul", ["consul/c14_test.go"], "^TestVerifC14"),
     ], layers={"quick": ["c14-registrations"], "thorough": ["c14-registrations"]}),
+    "C01": dict(level="model_checking", engine="xstate",
+        technique="explicit-state BFS over registry histories through the real consul watchers + watchBackend against a fake Consul HTTP API; bounded-exhaustive check sequences for the health rule",
+        level_text="(health rule) every sequence of up to 3 (thorough 4) health checks over 28 check shapes x tagged/untagged x strict/non-strict x 4 accepted-status lists through the real checksWithTagPrefix + passingServices against an independent predicate. (pipeline) breadth-first exploration of registry histories (depth 2 quick, 3 thorough, state de-duplicated) through the real backend, watchers, watchBackend and table installation, with causal quiescence detection; every state compares the active table with the reference.",
+        level_note="Blocking-query mode (pollinterval=0). The fake Consul serves consistent snapshots (index monotonic, blocks until change); stale reads and partial failures of Consul are not modelled. State merging key = (registry model, last good table); hidden loop state (svccfg, mancfg, lastTable, watcher indexes) is a function of those after quiescence, and each replay first drives the pipeline back to the initial state and checks the table (differential oracle).",
+        units=[
+        unit("c01-health", "registry/consul", ["consul/c14_test.go", "consul/c01_test.go"], "^TestVerifC01"),
+        unit("c01-pipeline", ".", MAIN_COMMON + ["main/c02_hist_test.go", "main/c01_test.go"], "^TestVerifC01", shards={"quick": 4, "thorough": 16}),
+    ], layers={"quick": ["c01-health", "c01-pipeline"], "thorough": ["c01-health", "c01-pipeline"]}),
 }
 
 def layer_unit(pid, layer):
